@@ -9,7 +9,8 @@
       off   |-> <<ox, oy, oz>>  the grid offset (StructuredGrid._offset)
       zb, tb, rb |-> bounds (sequences; <<>> where the dimension is step-defined)
       rings |-> numRings of the factory (unitStepLimits = (-rings, rings) x2, (0, 1)); 0 for bounds grids
-      sym, geom |-> metadata strings]
+      sym, geom |-> metadata strings,
+      how   |-> (Reduce.tla only) the construction route of the object; geometry never reads it]
    Lengths are integers counting a unit u chosen by the harness (u = 0.01 cm).  Hex pitches are multiples of
    24 and Cartesian sizes multiples of 4 so that centres, bases and tops (half steps) stay integral.
    A coordinate is a pair <<a, b>> meaning (a + b*sqrt(3)) * u: with pitch = sqrt(3) * side the x of a flats-up
